@@ -10,4 +10,5 @@ import (
 	_ "aaverif/eng/outdir"
 	_ "aaverif/eng/race"
 	_ "aaverif/eng/sched"
+	_ "aaverif/eng/seeds"
 )
